@@ -333,6 +333,9 @@ func parseRangeExtension(r *bits.EBSPReader, transformSkipEnabled bool) (*RangeE
 	if ext.ChromaQpOffsetListEnabledFlag {
 		ext.DiffCuChromaQpOffsetDepth = r.ReadExpGolomb()
 		ext.ChromaQpOffsetListLenMinus1 = r.ReadExpGolomb()
+		if ext.ChromaQpOffsetListLenMinus1 > 5 {
+			return nil, fmt.Errorf("chroma_qp_offset_list_len_minus1 %d is larger than 5", ext.ChromaQpOffsetListLenMinus1)
+		}
 		for i := uint(0); i <= ext.ChromaQpOffsetListLenMinus1; i++ {
 			// values shall be in the range of −12 to +12, inclusive
 			ext.CbQpOffsetList = append(ext.CbQpOffsetList, int8(r.ReadSignedGolomb()))
